@@ -5,6 +5,8 @@ package main
 import (
 	"os"
 	"fmt"
+	"regexp/syntax"
+	"unicode/utf8"
 	"go/constant"
 	"go/token"
 	"go/types"
@@ -542,4 +544,233 @@ func c18NilMapWrites(c *Ctx, r *Report) {
 	}
 	r.OK("R18.11", "map updates scanned", "", fmt.Sprintf("%d map updates, %d of them on a merged value", n, nphi))
 	r.Floor("R18.11", "map updates scanned", n, 150)
+}
+
+// lenLowerBound: the largest lower bound on len(x) established by the
+// branch conditions that dominate b: len(x) < K → elsewhere (K), len(x) >= K,
+// len(x) > K (K+1), len(x) == K, n := len(x) tests, and strings.HasPrefix /
+// HasSuffix(x, "const") (the constant's length — two of them give the larger,
+// not the sum: prefix and suffix may overlap).
+func lenLowerBound(b *ssa.BasicBlock, x ssa.Value) int {
+	best := 0
+	isLenOf := func(v ssa.Value) bool {
+		call, ok := v.(*ssa.Call)
+		if !ok {
+			return false
+		}
+		bi, ok := call.Call.Value.(*ssa.Builtin)
+		return ok && bi.Name() == "len" && sameStr(call.Call.Args[0], x)
+	}
+	for _, g := range GuardsAt(b) {
+		switch c := g.Cond.(type) {
+		case *ssa.Call:
+			n := CalleeName(&c.Call)
+			if (n == "strings.HasPrefix" || n == "strings.HasSuffix" || n == "bytes.HasPrefix" || n == "bytes.HasSuffix") && g.Polarity && sameStr(c.Call.Args[0], x) {
+				if k, ok := c.Call.Args[1].(*ssa.Const); ok && k.Value != nil && k.Value.Kind() == constant.String {
+					if l := len(constant.StringVal(k.Value)); l > best {
+						best = l
+					}
+				}
+			}
+		case *ssa.BinOp:
+			var k int
+			var okK bool
+			var lenLeft bool
+			if isLenOf(c.X) {
+				k, okK = ssaConstInt(c.Y)
+				lenLeft = true
+			} else if isLenOf(c.Y) {
+				k, okK = ssaConstInt(c.X)
+			}
+			if !okK {
+				continue
+			}
+			op := c.Op
+			if !lenLeft { // K op len  ⇒  len op' K
+				switch op {
+				case token.LSS:
+					op = token.GTR
+				case token.GTR:
+					op = token.LSS
+				case token.LEQ:
+					op = token.GEQ
+				case token.GEQ:
+					op = token.LEQ
+				}
+			}
+			lb := 0
+			switch {
+			case op == token.LSS && !g.Polarity, op == token.GEQ && g.Polarity:
+				lb = k
+			case op == token.LEQ && !g.Polarity, op == token.GTR && g.Polarity:
+				lb = k + 1
+			case op == token.EQL && g.Polarity, op == token.NEQ && !g.Polarity:
+				lb = k
+			}
+			if lb > best {
+				best = lb
+			}
+		}
+	}
+	return best
+}
+
+// c18TrimBothEnds (R18.4d)
+func c18TrimBothEnds(c *Ctx, r *Report) {
+	r.Rule("R18.4d", "a trim at both ends needs room for both: every slice x[a : len(x)-b] with constants a >= 1 and b >= 1 (strip an opening and a closing delimiter) in the library, built-in, scanner, reader and value-model packages is reached only with len(x) >= a+b established — by length tests, or by HasPrefix / HasSuffix with constant strings, where two of them give the longer of the two lengths and not their sum (a one-character prefix and a two-character suffix overlap in a two-character string)")
+	n := 0
+	for fn := range c.AllFunctions() {
+		if !IsModuleFunc(fn) || fn.Blocks == nil || fn.Pkg == nil {
+			continue
+		}
+		pp := fn.Pkg.Pkg.Path()
+		if !(strings.HasSuffix(pp, "/pkg/pbnjay-strptime") || strings.HasSuffix(pp, "/pkg/lib") || strings.HasSuffix(pp, "/pkg/scan") || strings.HasSuffix(pp, "/pkg/bifs") || strings.HasSuffix(pp, "/pkg/dkvpx") || strings.HasSuffix(pp, "/pkg/input") || strings.HasSuffix(pp, "/pkg/mlrval") || strings.HasSuffix(pp, "/pkg/cli") || strings.HasSuffix(pp, "/pkg/dsl/cst") || strings.HasSuffix(pp, "/pkg/transformers") || strings.HasSuffix(pp, "/pkg/output")) {
+			continue
+		}
+		k := 0
+		for _, b := range fn.Blocks {
+			for _, in := range b.Instrs {
+				sl, ok := in.(*ssa.Slice)
+				if !ok || sl.Low == nil || sl.High == nil {
+					continue
+				}
+				a, ok := ssaConstInt(sl.Low)
+				if !ok || a < 1 {
+					continue
+				}
+				hb, ok := sl.High.(*ssa.BinOp)
+				if !ok || hb.Op != token.SUB {
+					continue
+				}
+				bb, ok := ssaConstInt(hb.Y)
+				if !ok || bb < 1 {
+					continue
+				}
+				// high = len(x) - b  (directly or through n := len(x))
+				if !mentionsLen(hb.X, sl.X, 0) {
+					continue
+				}
+				n++
+				k++
+				key := fmt.Sprintf("%s: trim #%d [%d:len-%d]", SSAName(fn), k, a, bb)
+				lb := lenLowerBound(b, sl.X)
+				if m := regexMatchMinLen(c, sl.X); m > lb {
+					lb = m // the text of a match of a constant pattern is at least as long as its shortest match
+				}
+				r.Check(lb >= a+bb, "R18.4d", key, c.Rel(sl.Pos()), fmt.Sprintf("len >= %d established (needs %d)", lb, a+bb),
+					fmt.Sprintf("%s takes x[%d:len(x)-%d], which needs len(x) >= %d, but the tests on the way establish only len(x) >= %d: for a shorter x the bounds cross and the process panics (slice bounds out of range)", SSAName(fn), a, bb, a+bb, lb))
+			}
+		}
+	}
+	r.Floor("R18.4d", "both-ends trims", n, 3)
+}
+
+// regexMatchMinLen: x is the text of a match, s[loc[0]:loc[1]] with loc from
+// FindStringIndex / FindIndex of a package-level regexp compiled from a
+// constant pattern: the shortest string the pattern can match.
+func regexMatchMinLen(c *Ctx, x ssa.Value) int {
+	sl, ok := x.(*ssa.Slice)
+	if !ok || sl.Low == nil || sl.High == nil {
+		return 0
+	}
+	locOf := func(v ssa.Value, want int64) ssa.Value {
+		u, ok := v.(*ssa.UnOp)
+		if !ok || u.Op != token.MUL {
+			return nil
+		}
+		ia, ok := u.X.(*ssa.IndexAddr)
+		if !ok {
+			return nil
+		}
+		if k, ok := ssaConstInt(ia.Index); !ok || int64(k) != want {
+			return nil
+		}
+		return ia.X
+	}
+	l0, l1 := locOf(sl.Low, 0), locOf(sl.High, 1)
+	if l0 == nil || l0 != l1 {
+		return 0
+	}
+	call, ok := l0.(*ssa.Call)
+	if !ok {
+		return 0
+	}
+	cn := CalleeName(&call.Call)
+	if !(strings.HasSuffix(cn, "Regexp.FindStringIndex") || strings.HasSuffix(cn, "Regexp.FindIndex")) {
+		return 0
+	}
+	ld, ok := call.Call.Args[0].(*ssa.UnOp)
+	if !ok || ld.Op != token.MUL {
+		return 0
+	}
+	g, ok := ld.X.(*ssa.Global)
+	if !ok {
+		return 0
+	}
+	// the one store to the global: regexp.MustCompile(const)
+	pat, nst := "", 0
+	for fn := range c.AllFunctions() {
+		if fn.Blocks == nil || fn.Pkg != g.Pkg {
+			continue
+		}
+		for _, b := range fn.Blocks {
+			for _, in := range b.Instrs {
+				st, ok := in.(*ssa.Store)
+				if !ok || st.Addr != ssa.Value(g) {
+					continue
+				}
+				nst++
+				if mc, ok := st.Val.(*ssa.Call); ok && strings.HasSuffix(CalleeName(&mc.Call), "regexp.MustCompile") {
+					if k, ok := mc.Call.Args[0].(*ssa.Const); ok && k.Value != nil && k.Value.Kind() == constant.String {
+						pat = constant.StringVal(k.Value)
+					}
+				}
+			}
+		}
+	}
+	if nst != 1 || pat == "" {
+		return 0
+	}
+	re, err := syntax.Parse(pat, syntax.Perl)
+	if err != nil {
+		return 0
+	}
+	return regexMinLen(re.Simplify())
+}
+
+func regexMinLen(re *syntax.Regexp) int {
+	switch re.Op {
+	case syntax.OpLiteral:
+		n := 0
+		for _, r := range re.Rune {
+			n += utf8.RuneLen(r)
+		}
+		return n
+	case syntax.OpCharClass, syntax.OpAnyCharNotNL, syntax.OpAnyChar:
+		return 1
+	case syntax.OpCapture:
+		return regexMinLen(re.Sub[0])
+	case syntax.OpConcat:
+		n := 0
+		for _, s := range re.Sub {
+			n += regexMinLen(s)
+		}
+		return n
+	case syntax.OpAlternate:
+		best := -1
+		for _, s := range re.Sub {
+			if m := regexMinLen(s); best < 0 || m < best {
+				best = m
+			}
+		}
+		if best < 0 {
+			return 0
+		}
+		return best
+	case syntax.OpPlus:
+		return regexMinLen(re.Sub[0])
+	case syntax.OpRepeat:
+		return re.Min * regexMinLen(re.Sub[0])
+	}
+	return 0 // star, quest, empty-width assertions, empty match
 }
